@@ -82,8 +82,9 @@ type Attempt struct {
 	Reason      string            `json:"reason"`
 	Repeat      time.Duration     `json:"repeat"`
 	Alerts      []AttemptAlert    `json:"alerts"`
-	Outcome     string            `json:"outcome"` // ok | recoverable | unrecoverable | ctx
-	Epoch       int               `json:"epoch"`   // instance incarnation (restart counter)
+	Outcome     string            `json:"outcome"`         // ok | recoverable | unrecoverable | ctx
+	Epoch       int               `json:"epoch"`           // instance incarnation (restart counter)
+	Entry       *NflogEntry       `json:"entry,omitempty"` // cluster mode: the sending instance's own log entry for (group, integration) at the attempt
 }
 
 func (a *Attempt) OK() bool { return a.Outcome == "ok" }
@@ -138,21 +139,45 @@ type Sample struct {
 }
 
 type Trace struct {
-	Start      time.Time    `json:"start"`
-	StepAt     []time.Time  `json:"step_at"`
-	End        time.Time    `json:"end"`
-	Attempts   []Attempt    `json:"attempts"`
-	Samples    []Sample     `json:"samples"`
-	Starts     []time.Time  `json:"starts"`      // instants at which the instance (re)started its process-lifetime components
-	DispStarts []time.Time  `json:"disp_starts"` // instants at which a dispatcher was (re)created (reload or restart)
-	Errors     []string     `json:"errors,omitempty"`
-	FlushStorm []string     `json:"flush_storm,omitempty"`
-	Flushes    []FlushEnter `json:"flushes,omitempty"`
-	HookLog    []string     `json:"hook_log,omitempty"`
+	Start      time.Time      `json:"start"`
+	StepAt     []time.Time    `json:"step_at"`
+	End        time.Time      `json:"end"`
+	Attempts   []Attempt      `json:"attempts"`
+	Samples    []Sample       `json:"samples"`
+	Starts     []time.Time    `json:"starts"`      // instants at which the instance (re)started its process-lifetime components
+	DispStarts []time.Time    `json:"disp_starts"` // instants at which a dispatcher was (re)created (reload or restart)
+	Errors     []string       `json:"errors,omitempty"`
+	FlushStorm []string       `json:"flush_storm,omitempty"`
+	Flushes    []FlushEnter   `json:"flushes,omitempty"`
+	HookLog    []string       `json:"hook_log,omitempty"`
+	Net        map[string]int `json:"net,omitempty"`        // cluster mode: message counters of the harness network
+	Arrivals   []Arrival      `json:"arrivals,omitempty"`   // cluster mode: gossip deliveries of notification-log entries
+	LogWrites  []LogWrite     `json:"log_writes,omitempty"` // cluster mode: notification-log entries written locally by each instance
 }
 
 // FlushEnter is recorded by the flush.enter hook point.
 type FlushEnter struct {
 	GroupKey string    `json:"group_key"`
 	At       time.Time `json:"at"`
+}
+
+// LogWrite is one locally written notification-log entry (cluster mode).
+type LogWrite struct {
+	Inst     int       `json:"inst"`
+	At       time.Time `json:"at"`
+	GroupKey string    `json:"group_key"`
+	Receiver string    `json:"receiver"`
+	Idx      int       `json:"idx"`
+	Firing   []uint64  `json:"firing"`
+	Resolved []uint64  `json:"resolved"`
+}
+
+// Arrival is one notification-log entry delivered by the harness network to an instance.
+type Arrival struct {
+	Inst      int       `json:"inst"`
+	At        time.Time `json:"at"`
+	GroupKey  string    `json:"group_key"`
+	Receiver  string    `json:"receiver"`
+	Idx       int       `json:"idx"`
+	Timestamp time.Time `json:"timestamp"`
 }
